@@ -376,9 +376,18 @@ fn step(ctx: &Ctx, env: &Env, st: &Stats, s: &Snap, e: &Ev) -> Snap {
             } else {
                 // the lexer builder may fail after its parser builder succeeded: the parser counts
                 // as built when the generated file is what a parser-only clean build generates
+                // - but only if the parser builder ran at all in this step (the file was written
+                // or the whole build succeeded). When the lexer builder fails on its own source
+                // before it drives the parser builder, the generated parser is exactly as old as
+                // it was, and what it was built for does not change.
                 let alone = env.clean_build(s.g, 0, &s.settings, "parser").1;
                 let have = n.files.get("out.y.rs").map(|f| blank(&f.content));
-                n.parser_built_for = if have.is_some() && have.as_ref() == alone.get("out.y.rs") { Some((s.g, parser_settings(&s.settings))) } else { None };
+                let parser_ran = l_ok == Some(true) || rewritten["out.y.rs"];
+                if parser_ran {
+                    n.parser_built_for = if have.is_some() && have.as_ref() == alone.get("out.y.rs") { Some((s.g, parser_settings(&s.settings))) } else { None };
+                } else if have.is_none() {
+                    n.parser_built_for = None;
+                }
             }
         }
     }
